@@ -13,6 +13,8 @@ Sub-driver for M-TYPES.
   types enum <members> <bind|result|rt> <id>  members `name>obj,…` → `ok id` | `none`
                                            (rt = result ∘ bind: what the property observes)
   types expand <hasSingle> <escaped> <n>   processors present on the n expanded elements (0/1 each)
+  types expandt <mask> <escaped> <n>       same for a tuple IN: per tuple i and position j (mask = which
+                                           positions' types have a bind processor)
   types ipk <explicit> <py> <stored> <shift>  inserted_primary_key of a pk whose result processor adds <shift>
   types bool <N|0|1>                       → round trip through boolBind/intToBoolean
 -/
@@ -96,6 +98,17 @@ def handle : List String → String
       let ex := expandBind procs 1 esc k
       if k == 0 then "-" else
       ",".intercalate ((List.range k).map (fun j => if (ex.lookup (esc, j + 1)).isSome then "1" else "0"))
+    | none => "bad-op"
+  | ["expandt", mask, escaped, n] =>
+    match n.toNat? with
+    | some k =>
+      if !(mask.toList.all (fun c => c == '0' || c == '1')) || (escaped != "0" && escaped != "1") then "bad-op" else
+      let ps : List (Option Nat) := mask.toList.map (fun c => if c == '1' then some 7 else none)
+      let esc := if escaped == "1" then 2 else 1
+      let ex := expandTupleBind [(1, ps)] 1 esc k
+      if k == 0 then "-" else
+      ",".intercalate ((List.range k).flatMap (fun i => (List.range ps.length).map (fun j =>
+        if (ex.lookup (esc, i + 1, j + 1)).isSome then "1" else "0")))
     | none => "bad-op"
   | ["ipk", explicit, py, stored, shift] =>
     match py.toInt?, stored.toInt?, shift.toInt? with
